@@ -47,7 +47,82 @@ fn holder(s: &str) -> Holder {
     }
 }
 
+/// Background dials carry an expectation too: a High-affinity known peer X is dialed at every
+/// one of its addresses expecting X, whoever answers there.
+async fn scenario_background(sim: Arc<Sim>, unit: Value) -> Obs {
+    let mut o = Obs::default();
+    macro_rules! viol {
+        ($k:expr, $($arg:tt)*) => { o.violations.push(($k.to_string(), format!($($arg)*))) };
+    }
+    anemo::verif::set_jitter_override(Some(std::time::Duration::ZERO));
+    let mut vc = anemo::Config::default();
+    vc.connect_timeout_ms = Some(800);
+    vc.connectivity_check_interval_ms = Some(300);
+    vc.connection_backoff_ms = Some(100);
+    vc.max_connection_backoff_ms = Some(300);
+    let v = sim.start(&NodeSpec::new(V).config(vc)).unwrap();
+    let x = sim.start(&NodeSpec::new(X)).unwrap();
+    let y = sim.start(&NodeSpec::new(Y)).unwrap();
+    let (xid, yid) = (x.peer_id(), y.peer_id());
+    let impostor = Adversary::new(&sim, Some(&Identity::replayed(X, NET_NAME, Z)));
+    let ep = impostor.endpoint.clone();
+    tokio::spawn(async move {
+        while let Some(inc) = ep.accept().await {
+            tokio::spawn(async move {
+                if let Ok(conn) = inc.await {
+                    let _ = Adversary::send_ack(&conn).await;
+                    tokio::time::sleep(ms(5_000)).await;
+                }
+            });
+        }
+    });
+    let hole = std::net::UdpSocket::bind("127.0.0.1:0").unwrap();
+    let addrs: Vec<SocketAddr> = unit["addresses"].as_array().unwrap().iter().map(|a| match a.as_str().unwrap() {
+        "x" => x.local_addr(),
+        "y" => y.local_addr(),
+        "impostor" => impostor.addr,
+        _ => hole.local_addr().unwrap(),
+    }).collect();
+    let (mut ev, _) = v.subscribe().unwrap();
+    sim.fabric.set_fate_window(0, unit["fate_budget"].as_u64().unwrap_or(0) as usize);
+    v.known_peers().insert(known_peer(xid, anemo::types::PeerAffinity::High, addrs.clone()));
+    tokio::time::sleep(ms(6_000)).await;
+    sim.fabric.set_fate_budget(0);
+    let evs = drain_events(&mut ev);
+    let ctx = format!("[known peer X (High) with addresses held by {}]", unit["addresses"]);
+    for e in &evs {
+        let p = match e {
+            PeerEvent::NewPeer(p) | PeerEvent::LostPeer(p, _) => p,
+        };
+        if *p != xid {
+            viol!("pin-bypassed", "{ctx} the caller only ever dialed expecting X but announced {}", event_str(&sim, e));
+        }
+    }
+    for p in v.peers() {
+        if p != xid {
+            viol!("pin-bypassed", "{ctx} the caller only ever dialed expecting X but lists {}", sim.label(&p));
+        }
+    }
+    if !y.peers().is_empty() {
+        viol!("spurious-peer-at-listener", "{ctx} Y was only ever dialed expecting X but lists the caller");
+    }
+    let has_x = unit["addresses"].as_array().unwrap().iter().any(|a| a == "x");
+    let deviations = sim.chooser.lock().unwrap().choices().iter().filter(|c| **c != 0).count();
+    if has_x && deviations == 0 && !v.peers().contains(&xid) {
+        viol!("honest-dial-fails", "{ctx} X answers at one of its addresses but was not connected within 6 s");
+    }
+    if !has_x && v.peers().contains(&xid) {
+        viol!("wrong-identity-returned", "{ctx} the caller lists X although X answers at none of the addresses");
+    }
+    o.class = format!("background {} x_connected={}", unit["addresses"], v.peers().contains(&xid));
+    o.log.push(format!("events {:?}", evs.iter().map(|e| event_str(&sim, e)).collect::<Vec<_>>()));
+    o
+}
+
 async fn scenario(sim: Arc<Sim>, unit: Value) -> Obs {
+    if unit["kind"] == "background" {
+        return scenario_background(sim, unit).await;
+    }
     let mut o = Obs::default();
     macro_rules! viol {
         ($k:expr, $($arg:tt)*) => { o.violations.push(($k.to_string(), format!($($arg)*))) };
@@ -244,7 +319,7 @@ impl Check for C03 {
         CheckMeta {
             property: "C03",
             level: "fault_enumeration",
-            rule: "caller V, honest X and Y, an impostor replaying X's certificate without X's key, an impostor presenting [own certificate, X's certificate], and a dead address; every single dial (address holder x expected identity in {X, Y, none}), also with X or Y already connected to the caller (inbound or outbound) beforehand, with and without a connection limit of 1 at the caller that this history already fills, and every pair of dials (all 15 x 15 combinations x start offsets {0, 3, 9, 100} ms, the last one sequential), each explored over datagram fates within the deviation bound across both handshakes; distinct = distinct (holder, outcome) tuples".into(),
+            rule: "caller V, honest X and Y, an impostor replaying X's certificate without X's key, an impostor presenting [own certificate, X's certificate], and a dead address; every single dial (address holder x expected identity in {X, Y, none}), also with X or Y already connected to the caller (inbound or outbound) beforehand, with and without a connection limit of 1 at the caller that this history already fills, and every pair of dials (all 15 x 15 combinations x start offsets {0, 3, 9, 100} ms, the last one sequential), plus background dials to a High-affinity known peer X whose address list is partly held by Y, an impostor or nobody; each explored over datagram fates within the deviation bound across both handshakes; distinct = distinct (holder, outcome) tuples".into(),
             assumptions: vec!["three key pairs; the impostor completes whatever handshake the caller lets it complete and sends the acknowledgement".into()],
             exhaustive: true,
         }
@@ -268,6 +343,10 @@ impl Check for C03 {
                 u.push(json!({"pre":pre,"dials":[[h, e, 0]],"bound":tier.pick(1, 2),"fate_budget":24}));
                 u.push(json!({"pre":pre,"limit":1,"dials":[[h, e, 0]],"bound":tier.pick(0, 1),"fate_budget":24}));
             }
+        }
+        // background dials to a High-affinity known peer X whose address list is partly held by others
+        for addresses in [json!(["nobody", "y"]), json!(["y", "x"]), json!(["nobody", "impostor", "x"]), json!(["y"]), json!(["impostor", "y", "nobody"]), json!(["nobody", "x"])] {
+            u.push(json!({"kind":"background","addresses":addresses,"bound":tier.pick(0, 1),"fate_budget":30}));
         }
         for (h1, e1) in &kinds {
             for (h2, e2) in &kinds {
@@ -303,6 +382,9 @@ impl Check for C03 {
     }
 
     fn finish(&self, _tier: Tier, total: &mut UnitResult) -> Map<String, Value> {
+        if !total.classes.keys().any(|k| k.starts_with("background") && k.ends_with("x_connected=true")) {
+            total.machinery_errors.push("vacuous: no background dial ever reached X".into());
+        }
         for need in ["X:ok", "Y:ok", "Y:err", "Impostor:err", "ImpostorChain:ok", "ImpostorChain:err", "Nobody:err"] {
             if !total.classes.keys().any(|k| k.contains(need)) {
                 total.machinery_errors.push(format!("vacuous: outcome `{need}` never observed"));
